@@ -1108,7 +1108,7 @@ func (vc *VC) addObligation(st *State, kind, label, site string, goal Term, prop
 		return
 	}
 	if goal.IsTrue() {
-		if kind == "post" || kind == "lemma" || kind == "inv-init" || kind == "inv-pres" {
+		if kind == "post" || kind == "lemma" || kind == "inv-init" || kind == "inv-pres" || kind == "step" || kind == "pre" {
 			vc.trivial = append(vc.trivial, &Obligation{Func: vc.curFunc, Kind: kind, Label: label, Mode: vc.mode.Name, Props: props,
 				Name: fmt.Sprintf("%s#%s:%s", vc.curFunc, kind, label), Result: "unsat", Solver: "vcgo-simplifier", vc: vc, Goal: goal})
 		}
